@@ -27,6 +27,12 @@ def stepRaw (op : String) (raw : String) : String :=
   | ["unsdmxas", f] => match Freq.ofLetter? f with
     | some f => showR showPeriod (fromSdmxAs f raw.toList)
     | none => "bad-op"
+  | ["pfs", f] =>   -- periods_from_sdmx_strings: strings separated by `,`; f = `-` for frequency=None
+    let strs := if raw = "" then [] else (raw.splitOn ",").map (·.toList)
+    let f? : Option (Option Freq) := if f = "-" then some none else (Freq.ofLetter? f).map some
+    (match f? with
+      | some f? => showR (fun l => "[" ++ ",".intercalate (l.map showPeriod) ++ "]") (periodsFromSdmx f? strs)
+      | none => "bad-op")
   | ["detect"] => showR (fun o => match o with | some f => f.letter | none => "no-class") (detectFreq raw.toList)
   | ["uniso", f] => match Freq.ofLetter? f with
     | some f => showR showPeriod (fromIso f raw.toList)
